@@ -349,6 +349,17 @@ fn read_hdr(ctx: &mut Ctx, h: &ScionHeaderView) {
     acc(ctx, 6, "hdr.to_model", |_| {
         let _ = black_box(ScionPacketHeader::try_from_view(h));
     });
+    if ctx.m1.is_empty() {
+        // layout annotations rendered on the buffer (debug aid of sciparse::core::debug): once per view, not per mutator
+        acc(ctx, 8, "hdr.annotations", |_| {
+            use sciparse::header::layout::ScionHeaderLayout;
+            if let Ok(l) = ScionHeaderLayout::try_from_slice(h.as_slice()) {
+                let mut out = String::new();
+                let _ = l.annotations().fmt_on_buffer(&mut out, h.as_slice(), 4);
+                black_box(out.len());
+            }
+        });
+    }
     acc(ctx, 7, "hdr.to_boxed", |_| {
         let b = h.to_boxed();
         black_box(b.clone().as_slice_boxed().len());
